@@ -493,3 +493,35 @@ func (c *Ctx) callsToLookup(fn, find *ssa.Function) []ssa.CallInstruction {
 	}
 	return out
 }
+
+// refinedTarget: a lookup result that is afterwards narrowed — `t := lookup(); if <not wanted> { t = nil }` — is the
+// phi that joins the result with nil constants; the rules that reason about "the target" reason about that value.
+func refinedTarget(v ssa.Value) ssa.Value {
+	for round := 0; round < 3; round++ {
+		var next ssa.Value
+		for _, r := range refsOf(v) {
+			phi, isPhi := r.(*ssa.Phi)
+			if !isPhi {
+				continue
+			}
+			okPhi := true
+			for _, e := range phi.Edges {
+				if e == v || isNilConst(e) {
+					continue
+				}
+				okPhi = false
+			}
+			if okPhi {
+				if next != nil && next != ssa.Value(phi) {
+					return v // two different refinements: leave it
+				}
+				next = phi
+			}
+		}
+		if next == nil {
+			return v
+		}
+		v = next
+	}
+	return v
+}
